@@ -49,7 +49,7 @@ prop("C03", ["REL-1", "REL-3", "REL-5", "ENC-1", "ENC-3"],
      "that sums max_size over a window covering the displacement including the instruction itself, thresholds 127/128; label+n operands take their index through the address-expression predicate "
      "at all three sites; the PCR offset is target - own address - own size rendered at the chosen width; label,PCR offers post-bytes 8C/8D (9C/9D).",
      "numeric correctness at every distance and for every combination of mutually dependent unsized statements (only margins and identities).", ASM_ASSUME)
-prop("C04", ["EXP-1", "LAY-1", "LAY-3", "WID-3", "ENC-6", "ESC-1", "REL-3", "REL-5"],
+prop("C04", ["EXP-1", "LAY-1", "LAY-3", "WID-3", "WID-6", "ENC-6", "ESC-1", "REL-3", "REL-5"],
      "each operator arm of ExpressionValue.resolve applies its own operator to (left, right) in that order and both operands are looked up independently; symbol collection precedes resolution "
      "over all statements (definition order irrelevant); undefined symbols raise; width predicates and two's-complement modulus follow the field width; statement-level handlers turn arithmetic errors "
      "(division by zero, out-of-range results) into a TranslationError.",
@@ -86,7 +86,7 @@ prop("C11", ["CLI-1", "VF-1", "VF-3", "CAS-3", "CAS-1", "CAS-5", "DSK-2", "DSK-3
      "builds the container of its kind and adds that very object; cassette/disk blocks are dominated by the no-name guard; BinaryFile appends the data only; containers do not consume the data "
      "(the same object is written to several containers).",
      "that listing the produced image returns the program (C06/C07); END operand as entry address.")
-prop("C12", ["WID-1", "WID-3", "WID-5", "LAY-5", "ENC-4", "ENC-5", "TAB-1", "TAB-2", "TAB-3", "TAB-4"],
+prop("C12", ["WID-1", "WID-3", "WID-5", "WID-6", "LAY-5", "ENC-4", "ENC-5", "TAB-1", "TAB-2", "TAB-3", "TAB-4"],
      "modes the instruction lacks are rejected by every operand class; table cells exist only where the CPU has the mode; register recognition: every return path of the indexed encoders is realised "
      "by a grammar-valid operand only (probe spellings outside the grammar must raise); PSH/PUL/TFR/EXG reject unknown, own-stack and mixed-size registers; parse-time numeric limits; the width of "
      "`additional` at every sink against the mode's width.",
